@@ -232,7 +232,7 @@ impl Property for C14 {
     fn runs(&self, tier: Tier) -> u64 {
         match tier {
             Tier::Quick => 12_000,
-            Tier::Thorough => 500_000,
+            Tier::Thorough => 300_000,
         }
     }
     fn generate(&self, rng: &mut Rng, tier: Tier) -> Scenario {
